@@ -468,6 +468,9 @@ func (t *Trans) applyContract(fr *Frame, c *Contract, cname string, sig *types.S
 		post.results = append(post.results, specVal{r, sig.Results().At(i).Type()})
 	}
 	for _, e := range c.Ensures {
+		if e.Kind == "ensures-assumed" {
+			t.trustedUsed[c.Key+"#"+e.Label+" (assumed clause)"] = true
+		}
 		ens := post.expandBool(e.Expr)
 		if len(ghostHyps) > 0 && mentionsFreshGhost(ens) {
 			ens = fmt.Sprintf("(=> %s %s)", andTerms(ghostHyps...), ens)
@@ -589,6 +592,20 @@ func (t *Trans) callDynamic(fr *Frame, c *ssa.CallCommon, args []string, pos tok
 			res := t.applyContract(fr, cb, "callback."+p.Name(), sig, names, ptypes, args, nil, pos)
 			t.reqOld = nil
 			return res
+		}
+	}
+	// a captured function parameter of the enclosing function: that parameter's callback contract
+	if u, ok := c.Value.(*ssa.UnOp); ok && u.Op == token.MUL {
+		if fv, ok := u.X.(*ssa.FreeVar); ok && fr.fn.Parent() != nil && t.P.finalFV[fv] {
+			for g := fr.fn.Parent(); g != nil; g = g.Parent() {
+				if cb := t.P.cbParam(t.P.FnKey(g), fv.Name()); cb != nil {
+					names, ptypes := sigNames(sig, cb)
+					cb2 := *cb
+					// relational clauses (mentioning the enclosing function's entry state) are not available inside the closure
+					cb2.Requires = cb.Requires[:cb.NImportedReq]
+					return t.applyContract(fr, &cb2, "callback."+fv.Name(), sig, names, ptypes, args, nil, pos)
+				}
+			}
 		}
 	}
 	// a function stored in a struct field with a field callback contract
